@@ -6,6 +6,7 @@ CONSTANTS
   MaxInst = 1
   NZ = 2
   MaxReq = 2
+  MaxPureTaken = 8
   NForeign = 1
   CJ = TRUE
 INIT Init
